@@ -148,6 +148,11 @@ static Result judge_C08(const uint8_t* d, size_t n) {
   Call c2; decode_once(in.p, in.n, c2);
   static const uint8_t other[] = {0x5b, 0xff, 0xff, 0xff, 0xff, 0xff, 0xff, 0xff, 0xfe, 0x00};
   Call cx; decode_once(other, 3, cx); decode_once(other, sizeof other, cx);
+  {  // the empty buffer, every time: nothing is pending, so the only admissible answer is "one more byte"
+    Exact none(d, 0); Call c0; decode_once(none.p, 0, c0);
+    if (c0.res.status != CBOR_DECODER_NEDATA || c0.res.read != 0 || c0.res.required != 1 || !c0.rec.ev.empty())
+      return fail("an empty buffer between two calls: status " + std::to_string(c0.res.status) + " read " + std::to_string(c0.res.read) + " required " + std::to_string(c0.res.required) + " callbacks " + std::to_string(c0.rec.ev.size()) + ", expected NEDATA / 0 / 1 / none (state kept between calls)");
+  }
   Call c3; decode_once(in.p, in.n, c3);
   auto same = [&](const Call& a, const Call& b) {
     if (a.res.status != b.res.status || a.res.read != b.res.read) return false;
@@ -224,7 +229,13 @@ static Result judge_C09(const Case& c) {
     arrived = cut;
     for (;;) {
       size_t buffered = arrived - pos;
-      if (buffered < wait_for || buffered == 0) break;
+      if (buffered == 0) {   // a client may poll with nothing buffered: the answer is always "one more byte"
+        Exact none(d, 0); Call c0; decode_once(none.p, 0, c0);
+        if (c0.res.status != CBOR_DECODER_NEDATA || c0.res.read != 0 || c0.res.required != 1 || !c0.rec.ev.empty())
+          return fail("polling with an empty buffer at offset " + std::to_string(pos) + ": status " + std::to_string(c0.res.status) + " read " + std::to_string(c0.res.read) + " required " + std::to_string(c0.res.required) + ", expected NEDATA / 0 / 1");
+        break;
+      }
+      if (buffered < wait_for) break;
       Exact buf(d + pos, buffered);
       Call call; decode_once(buf.p, buf.n, call);
       if (call.res.status == CBOR_DECODER_FINISHED) {
@@ -475,6 +486,7 @@ static const char* kDriverName = "drv_stream";
 int main(int argc, char** argv) {
   driver_init();
   vh::Driver drv{kDriverName, run_campaigns, run_case};
+  drv.replay_repeat = 4096;   // C08/C09/C10: "keeps no state between calls" — a history-dependent failure reproduces by repetition
   return vh::driver_main(argc, argv, drv);
 }
 #endif
